@@ -37,7 +37,7 @@ ASSUMPTIONS = [
     "npz/hdf5 keys are non-empty strings; default entry = 'arr_0' (npz) / first dataset in depth-first sorted-key order (hdf5)",
     "names for the unknown-suffix clause avoid upper-case variants of known suffixes, 'ark:'/'scp:' prefixes and a trailing '|'",
     "unknown force_as values avoid '' and any spelling whose lower case is a valid value",
-    "a wds_read_signal call that does not return within 120 s or kills the process is reported as a violation",
+    "a wds_read_signal call that does not return within 300 s or kills the process is reported as a violation",
 ]
 
 # The statement promises "never raises, returning None for anything it cannot decode"; the function is
@@ -521,7 +521,7 @@ def _child(pairs, wfd):
         os.dup2(devnull, 1)
         os.dup2(devnull, 2)
         signal.signal(signal.SIGALRM, signal.SIG_DFL)
-        signal.alarm(120)
+        signal.alarm(300)
         from pydrobert.speech.util import wds_read_signal
 
         for i, (key, data) in enumerate(pairs):
@@ -592,7 +592,7 @@ def check_wds_garbage(case):
                 if os.WIFSIGNALED(status):
                     sig = os.WTERMSIG(status)
                     if sig == signal.SIGALRM:
-                        raise Violation("%s did not return within 120 s (item %d)" % (desc, i))
+                        raise Violation("%s did not return within 300 s (item %d)" % (desc, i))
                     raise Violation("%s killed the process with signal %d (item %d)" % (desc, sig, i))
                 raise Violation("%s terminated the process (wait status %d, item %d)" % (desc, status, i))
             raise HarnessError("forked batch lost item %d (status %d)" % (i, status))
